@@ -341,8 +341,9 @@ func runC08(c *core.Ctx) {
 	}
 	c08NameProbes(c)
 	c08LateRegistration(c)
+	c08MoreProbes(c)
 	_ = k
-	c.R.Bound = "49 membership variants x 7 abstract bases x 5 binding modes x 2 graphs; mutation depth per variant: quick 0 (9 corner variants 1), thorough 1 (default variant 2); + all ordered request pairs on one root (10 x 7 documents) and every single implements / union-member extension loaded between requests, for the 9 corner variants (thorough: all 49); + Go type names containing one another x 5 bindings x all member and value orders x {SDL, AddTypes} x {union first, interface first}; + every sequence <= 5 (thorough 7) of 3 requests and 2 RegisterType calls on one root (types that bind by registration only)"
+	c.R.Bound = "49 membership variants x 7 abstract bases x 5 binding modes x 2 graphs; mutation depth per variant: quick 0 (9 corner variants 1), thorough 1 (default variant 2); + all ordered request pairs on one root (10 x 7 documents) and every single implements / union-member extension loaded between requests, for the 9 corner variants (thorough: all 49); + Go type names containing one another x 5 bindings x all member and value orders x {SDL, AddTypes} x {union first, interface first}; + every sequence <= 5 (thorough 7) of 3 requests and 2 RegisterType calls on one root (types that bind by registration only); + typed slices / arrays of struct values behind abstract lists and one Go type bound to two object types x 3 bindings"
 	if !completed {
 		c.Cap("deadline reached")
 	}
@@ -653,4 +654,101 @@ func c08LateRegistration(c *core.Ctx) {
 		}
 	}
 	rec(nil)
+}
+
+// ---- Part F: (1) a typed Go slice of struct VALUES behind a list of an interface / union type, the struct bound as a value type
+// by registration or by name; (2) one Go type bound to two object types (a struct that serves Employee and Contractor): under
+// an object-typed field the declared type decides, whatever else the Go type is bound to.
+
+type Pug struct{ Name string }
+type Tabby struct{ Name string }
+type c08Worker struct{ Name string }
+type c08FQuery struct {
+	Kennel     []Pug
+	Found      []Pug
+	Pugs       [2]Pug
+	One        Pug
+	Employee   *c08Worker
+	Contractor *c08Worker
+	Staff      []*c08Worker
+}
+type c08FRoot struct{ Query *c08FQuery }
+
+func c08MoreProbes(c *core.Ctx) {
+	const sdl = "interface Pet { name: String }\ntype Pug implements Pet { name: String }\ntype Tabby implements Pet { name: String }\nunion PT = Pug | Tabby\n" +
+		"type Employee { name: String }\ntype Contractor { name: String }\n" +
+		"type Query { kennel: [Pet] found: [PT] pugs: [Pet] one: Pet employee: Employee contractor: Contractor staff: [Employee] }\n"
+	el := func(tn, name string, extra ...string) map[string]interface{} {
+		m := map[string]interface{}{"__typename": tn, "name": name}
+		for i := 0; i+1 < len(extra); i += 2 {
+			m[extra[i]] = extra[i+1]
+		}
+		return m
+	}
+	type probe struct {
+		name string
+		q    string
+		want map[string]interface{}
+	}
+	probes := []probe{
+		{"value-slice-under-interface", "{ kennel { __typename name ... on Pug { p: name } ... on Tabby { t: name } } }",
+			map[string]interface{}{"kennel": []interface{}{el("Pug", "a", "p", "a"), el("Pug", "b", "p", "b")}}},
+		{"value-slice-under-union", "{ found { __typename ... on Pug { name } } }", map[string]interface{}{"found": []interface{}{el("Pug", "c")}}},
+		{"value-array-under-interface", "{ pugs { __typename name } one { __typename name } }",
+			map[string]interface{}{"pugs": []interface{}{el("Pug", "d"), el("Pug", "e")}, "one": el("Pug", "f")}},
+		{"one-go-type-two-object-types", "{ contractor { __typename name ... on Contractor { c: name } ... on Employee { e: name } } employee { __typename name ... on Employee { e: name } ... on Contractor { c: name } } staff { __typename ... on Employee { name } } }",
+			map[string]interface{}{"contractor": el("Contractor", "con", "c", "con"), "employee": el("Employee", "emp", "e", "emp"), "staff": []interface{}{el("Employee", "emp")}}},
+		{"one-go-type-two-object-types-other-order", "{ employee { __typename ... on Employee { e: name } ... on Contractor { c: name } } contractor { __typename ... on Contractor { c: name } ... on Employee { e: name } } }",
+			map[string]interface{}{"employee": map[string]interface{}{"__typename": "Employee", "e": "emp"}, "contractor": map[string]interface{}{"__typename": "Contractor", "c": "con"}}},
+	}
+	// (registering *Pug does not bind the VALUE type Pug: not asked)
+	for bi, binding := range []string{"register-values", "byname-cold", "byname-after-a-single-value"} {
+		for pi2, pr := range probes {
+			if !c.OwnsIdx(1<<44 + int64(bi*10+pi2)) {
+				continue
+			}
+			c.Eval()
+			c.R.Distinct++
+			c.Nontrivial()
+			q := &c08FQuery{Kennel: []Pug{{"a"}, {"b"}}, Found: []Pug{{"c"}}, Pugs: [2]Pug{{"d"}, {"e"}}, One: Pug{"f"},
+				Employee: &c08Worker{"emp"}, Contractor: &c08Worker{"con"}, Staff: []*c08Worker{{"emp"}}}
+			root := ggql.NewRoot(&c08FRoot{Query: q})
+			if err := root.ParseString(sdl); err != nil {
+				panic(core.EngineError{Msg: "C08 part F schema refused: " + err.Error()})
+			}
+			var res map[string]interface{}
+			var regErr error
+			pi := core.Safe(func() {
+				switch binding {
+				case "register-values":
+					regErr = root.RegisterType(Pug{}, "Pug")
+				case "byname-after-a-single-value":
+					_ = root.ResolveString("{ one { name } }", "", nil)
+				}
+				if regErr == nil {
+					if regErr = root.RegisterType(&c08Worker{}, "Employee"); regErr == nil {
+						regErr = root.RegisterType(&c08Worker{}, "Contractor")
+					}
+				}
+				res = root.ResolveString(pr.q, "", nil)
+			})
+			detail := map[string]interface{}{"sdl": sdl, "binding": binding, "query": pr.q, "response": res, "want_data": pr.want}
+			attrs := map[string]string{"part": "values-and-double-bindings", "binding": binding, "probe": pr.name}
+			switch {
+			case pi != nil:
+				detail["panic"] = pi.Value
+				c.Violation("panic", map[string]string{"site": pi.Site, "class": pi.Class, "part": "values-and-double-bindings"}, detail)
+			case regErr != nil:
+				c.Outcome("part-F-registration-refused") // one Go type for two object types may be refused: then there is nothing to ask
+			default:
+				if dd := world.Diff(world.Canon(pr.want), world.Canon(res["data"]), ""); dd != "" || res["errors"] != nil {
+					detail["diff"] = dd
+					c.Outcome("part-F-diff")
+					c.Violation("data-diff", attrs, detail)
+				} else {
+					c.Outcome("part-F-agree")
+				}
+			}
+		}
+	}
 }
